@@ -146,6 +146,15 @@ class FieldType:
         return data
 
 
+def _to_hashable(value):
+    """Lists and dicts, at any depth of a packed record, have to be converted to tuples to be able to hash them."""
+    if isinstance(value, (list, tuple)):
+        return tuple(_to_hashable(v) for v in value)
+    if isinstance(value, dict):
+        return tuple((k, _to_hashable(v)) for k, v in value.items())
+    return value
+
+
 class Record:
     __slots__ = ()
 
@@ -203,26 +212,7 @@ class Record:
 
     def __hash__(self) -> int:
         desc_identifier, values = self._pack(excluded_fields=IGNORE_FIELDS_FOR_COMPARISON)
-        if not any((isinstance(value, list) for value in values)):
-            return hash((desc_identifier, values))
-
-        # Lists have to be converted to tuples to be able to hash them
-        record_values = []
-        for value in values:
-            if not isinstance(value, list):
-                record_values.append(value)
-                continue
-            list_values = []
-            for list_value in value:
-                if isinstance(list_value, dict):
-                    # List values that are dicts must be converted to tuples
-                    dict_as_tuple = tuple(list_value.items())
-                    list_values.append(dict_as_tuple)
-                else:
-                    list_values.append(list_value)
-            record_values.append(tuple(list_values))
-
-        return hash((desc_identifier, tuple(record_values)))
+        return hash((desc_identifier, _to_hashable(values)))
 
     def __repr__(self):
         return "<{} {}>".format(
